@@ -194,6 +194,23 @@ pub fn damaged_merge() {
         }
         assert!(s == expected, "a damaged or missing item influenced the visible state");
     }
+    // the same through the incremental route: a live replica that holds the base block receives everything else at once
+    if g != 0 {
+        let mut t = Rep::new();
+        for f in &groups[0].0 {
+            t.ad.write().unwrap().write_object(f, &a.ad.read().unwrap().read_object(f, 0, 0).unwrap()).unwrap();
+        }
+        t.m.refresh().expect("refresh (base)");
+        {
+            let src = bad.read().unwrap();
+            for f in src.list_objects("").unwrap() {
+                t.ad.write().unwrap().write_object(&f, &src.read_object(&f, 0, 0).unwrap()).unwrap();
+            }
+        }
+        if t.m.refresh().is_ok() {
+            assert!(state(&t.m) == expected, "incremental refresh over a damaged storage does not show the state of the intact blocks");
+        }
+    }
     sym::reach(1);
 }
 
